@@ -277,6 +277,21 @@ def first_diff(a, b):
     return None
 
 
+_SIG_RE = re.compile(r"sig=(?:ecdsa|eddsa)\[[^\]]*\]|sig=bls\([^)]*\)|\(\d+,#\d+\)|#\d+")
+
+
+def modulo_certificate_choice(lines, model_out, impl_out):
+    """With aggregate QCs configured the implementation picks an ARBITRARY one of the highest-view valid QCs
+    an aggregate QC attests (map iteration order, unstable sort in findHighestValidQC); the QCs it may pick
+    certify the same block in the same view and differ only in which quorum of votes they were assembled
+    from.  The model picks the first.  Returns True when the two answer streams are equal once the contents
+    of signatures are blanked, i.e. when they differ only by that choice."""
+    if not lines or " agg=1" not in lines[0]:
+        return False
+    norm = lambda out: [_SIG_RE.sub("*", l) for l in out]
+    return first_diff(norm(model_out), norm(impl_out)) is None
+
+
 def ddmin(lines, pred, keep_prefix=0, budget=200):
     """Delta-debug a script (list of lines) so that pred(lines) stays true. keep_prefix lines are fixed."""
     head, cur = lines[:keep_prefix], lines[keep_prefix:]
